@@ -354,7 +354,7 @@ func genWorldPlan(prop string, master uint64, run int) Plan {
 		cross := 0
 		if r.Chance(1, 8) {
 			// two parsers that may disagree about special schemes; some resolutions go through the other one
-			c2 := []Config{{Profile: "Semantic"}, {Opts: []OptSpec{{N: "special", I: 0}}}, {Opts: []OptSpec{{N: "special", I: 1}}}, {Opts: []OptSpec{{N: "special", I: 3}}}, {}, {Opts: []OptSpec{{N: "special", I: 2}}}}[r.Intn(6)]
+			c2 := []Config{{Profile: "Semantic"}, {Opts: []OptSpec{{N: "special", I: 0}}}, {Opts: []OptSpec{{N: "special", I: 1}}}, {Opts: []OptSpec{{N: "special", I: 3}}}, {}, {Opts: []OptSpec{{N: "special", I: 2}}}, {Opts: []OptSpec{{N: "special", I: 4}}}}[r.Intn(7)]
 			pl.Cfg2 = &c2
 			cross = 3
 		}
